@@ -161,4 +161,126 @@ theorem e_map (l : List Int) (k : Nat) (f : Int → Int) (hf : f 0 = 0) (i : Nat
   simp only [e, List.getD_eq_getElem?_getD, List.getElem?_map]
   cases l[i]? <;> simp [hf]
 
+
+/-! ### indexing -/
+
+theorem red_of_range {k : Nat} {x : Int} (h : k = 0 ∨ (0 ≤ x ∧ x < (2:Int)^k)) : red k x = x := by
+  unfold red
+  split
+  · rfl
+  · rename_i hk
+    rcases h with h | h
+    · exact absurd h hk
+    · exact Int.emod_eq_of_lt h.1 h.2
+
+theorem WF_red_e {a : Poly} (ha : a.WF) (i : Nat) : red a.size (a.e i) = a.e i := by
+  apply red_of_range
+  by_cases hk : a.size = 0
+  · exact Or.inl hk
+  · exact Or.inr (WF_e ha (Nat.pos_of_ne_zero hk) i)
+
+theorem normIndex_pos {i : Int} {n : Nat} (h : -(n:Int) ≤ i ∧ i < n) : normIndex i n = some (Spec.Poly.pos n i) := by
+  unfold normIndex Spec.Poly.pos
+  by_cases h0 : 0 ≤ i
+  · simp [h0, h.2, Int.not_lt.mpr h0]
+  · have : i < 0 := by omega
+    simp [h0, this]
+    omega
+
+theorem normIndex_none {i : Int} {n : Nat} (h : i < -(n:Int) ∨ (n:Int) ≤ i) : normIndex i n = none := by
+  unfold normIndex
+  rw [if_neg (by omega), if_neg (by omega)]
+
+theorem pos_lt {i : Int} {n : Nat} (h : -(n:Int) ≤ i ∧ i < n) : Spec.Poly.pos n i < n := by
+  unfold Spec.Poly.pos; split <;> omega
+
+theorem pyGet_ok (a : Poly) {i : Int} (h : -(a.dim:Int) ≤ i ∧ i < a.dim) :
+    pyGet a.ival i = .ok (a.e (Spec.Poly.pos a.dim i)) := by
+  simp only [dim] at h
+  simp [pyGet, normIndex_pos h, e, dim]
+
+theorem pyGet_err (a : Poly) {i : Int} (h : i < -(a.dim:Int) ∨ (a.dim:Int) ≤ i) :
+    pyGet a.ival i = .error "IndexError" := by
+  simp only [dim] at h
+  simp [pyGet, normIndex_none h]
+
+theorem ofList_WF_eq {l : List Int} {k : Nat} (h : (⟨l, k⟩ : Poly).WF) : ofList l k = ⟨l, k⟩ := by
+  simp only [ofList, if_true]
+  congr 1
+  conv => rhs; rw [← List.map_id l]
+  apply List.map_congr_left
+  intro x hx
+  apply red_of_range
+  rcases h with h | h
+  · exact Or.inl h
+  · exact Or.inr (h x hx)
+
+theorem mapM_ok {α β : Type} (f : α → Except Err β) (g : α → β) :
+    ∀ (l : List α), (∀ x ∈ l, f x = .ok (g x)) → l.mapM f = .ok (l.map g)
+  | [], _ => rfl
+  | x :: xs, h => by
+    rw [List.mapM_cons, h x (List.mem_cons_self), mapM_ok f g xs (fun y hy => h y (List.mem_cons_of_mem _ hy))]
+    rfl
+
+theorem mapM_err {α β : Type} (f : α → Except Err β) :
+    ∀ (l : List α), (∃ x ∈ l, ∃ m, f x = .error m) → ∃ m, l.mapM f = .error m
+  | [], h => by obtain ⟨x, hx, _⟩ := h; cases hx
+  | x :: xs, h => by
+    rw [List.mapM_cons]
+    cases hfx : f x with
+    | error m => exact ⟨m, rfl⟩
+    | ok v =>
+      have : ∃ y ∈ xs, ∃ m, f y = .error m := by
+        obtain ⟨y, hy, m, hm⟩ := h
+        rcases List.mem_cons.mp hy with rfl | hy
+        · rw [hfx] at hm; cases hm
+        · exact ⟨y, hy, m, hm⟩
+      obtain ⟨m, hm⟩ := mapM_err f xs this
+      exact ⟨m, by simp [hm, bind, Except.bind]⟩
+
+theorem WF_of_forall {l : List Int} {k : Nat} (h : ∀ x ∈ l, k = 0 ∨ (0 ≤ x ∧ x < (2:Int)^k)) : (⟨l, k⟩ : Poly).WF := by
+  by_cases hk : k = 0
+  · exact Or.inl hk
+  · right; intro x hx
+    rcases h x hx with h | h
+    · exact absurd h hk
+    · exact h
+
+theorem WF_map_e {a : Poly} (ha : a.WF) {α : Type} (l : List α) (f : α → Nat) :
+    (⟨l.map (fun i => a.e (f i)), a.size⟩ : Poly).WF := by
+  apply WF_of_forall
+  intro x hx
+  obtain ⟨i, _, rfl⟩ := List.mem_map.mp hx
+  by_cases hk : a.size = 0
+  · exact Or.inl hk
+  · exact Or.inr (WF_e ha (Nat.pos_of_ne_zero hk) _)
+
+theorem sliceIndices_bounds {start stop step : Option Int} {n : Nat} {s e st : Int}
+    (h : sliceIndices start stop step n = .ok (s, e, st)) (hst : 0 ≤ st) :
+    0 < st ∧ 0 ≤ s ∧ s ≤ n ∧ 0 ≤ e ∧ e ≤ n := by
+  unfold sliceIndices at h
+  simp only at h
+  split at h
+  · cases h
+  · rename_i h0
+    injection h with h
+    injection h with hs h
+    injection h with he hst'
+    subst hst'
+    have hpos : 0 < step.getD 1 := by omega
+    have hn : ¬ step.getD 1 < 0 := by omega
+    simp only [hn, if_false] at hs he
+    refine ⟨hpos, ?_, ?_, ?_, ?_⟩
+    · subst hs; cases start <;> simp only <;> (try split) <;> (try split) <;> omega
+    · subst hs; cases start <;> simp only <;> (try split) <;> (try split) <;> omega
+    · subst he; cases stop <;> simp only <;> (try split) <;> (try split) <;> omega
+    · subst he; cases stop <;> simp only <;> (try split) <;> (try split) <;> omega
+
+theorem range_nonneg {s e st : Int} (hs : 0 ≤ s) (hst : 0 ≤ st) : ∀ i ∈ Py.range s e st, 0 ≤ i := by
+  intro i hi
+  simp only [Py.range, List.mem_map, List.mem_range] at hi
+  obtain ⟨j, _, rfl⟩ := hi
+  have : 0 ≤ st * (j:Int) := Int.mul_nonneg hst (Int.natCast_nonneg j)
+  omega
+
 end Proofs.PolyL
